@@ -567,6 +567,10 @@ def hand_cases():
   for op in ("+=", "|=", "&=", "^=", ">>="):
     add(f"operator:{op}:update", ["s.in_ = InPort( Bits8 )", "s.out = OutPort( Bits8 )", "@update", "def up():", f"  s.out {op} s.in_"], "UpdateBlockWriteError")
     add(f"operator:{op}:update_ff", ["s.in_ = InPort( Bits8 )", "s.out = OutPort( Bits8 )", "@update_ff", "def up():", f"  s.out {op} s.in_"], "UpdateFFBlockWriteError")
+  # the operator rule inside a function that an update block calls
+  add("operator-in-func:<<=", ["s.in_ = InPort( Bits8 )", "s.out = OutPort( Bits8 )", "@s.func", "def f():", "  s.out <<= s.in_", "@update", "def up():", "  f()"], "UpdateBlockWriteError")
+  add("operator-in-func:=", ["s.in_ = InPort( Bits8 )", "s.out = OutPort( Bits8 )", "@s.func", "def f():", "  s.out = s.in_", "@update", "def up():", "  f()"], "UpdateBlockWriteError")
+  add("operator-in-func:@=(control)", ["s.in_ = InPort( Bits8 )", "s.out = OutPort( Bits8 )", "@s.func", "def f():", "  s.out @= s.in_", "@update", "def up():", "  f()"], None)
   # connection loops
   add("loop:self-connection", ["s.in_ = InPort( Bits8 )", "s.w = Wire( Bits8 )", "connect( s.w, s.in_ )", "connect( s.w, s.w )"], "InvalidConnectionError")
   # a loop variable that shadows a module-level name: the block writes BOTH list elements
